@@ -29,12 +29,16 @@ pub fn generate(out: &mut Out, prop: &str, thorough: bool, seed: u64) {
     match prop {
         "C01" => {
             client::gen_c01(out, &mut rng, thorough);
-            netgen::gen_serial_server(out, &mut rng, if thorough { 100 } else { 8 })
+            netgen::gen_serial_server(out, &mut rng, if thorough { 100 } else { 8 });
+            netgen::gen_c01_sync(out, &mut rng, thorough)
         }
         "C02" => client::gen_c02(out, &mut rng, thorough),
         "C03" => codec::gen_c03(out, &mut rng, thorough),
         "C04" => stream::gen_c04(out, &mut rng, thorough),
-        "C05" => stream::gen_c05(out, &mut rng, thorough),
+        "C05" => {
+            stream::gen_c05(out, &mut rng, thorough);
+            client::gen_c05_after_reject(out, &mut rng, thorough)
+        }
         "C06" => client::gen_c06(out, &mut rng, thorough),
         "C07" => {
             server::gen_c07(out, &mut rng, thorough);
@@ -50,7 +54,10 @@ pub fn generate(out: &mut Out, prop: &str, thorough: bool, seed: u64) {
             server::gen_c14(out, &mut rng, thorough);
             netgen::gen_c14_accept(out, &mut rng, thorough)
         }
-        "C15" => client::gen_c15(out, &mut rng, thorough),
+        "C15" => {
+            client::gen_c15(out, &mut rng, thorough);
+            client::gen_c15_stale_wbuf(out, &mut rng, thorough)
+        }
         "C16" => {
             client::gen_c16(out, &mut rng, thorough);
             client::gen_c16_partial(out, &mut rng, thorough);
@@ -75,12 +82,16 @@ pub fn monitor_line(out: &mut Out, line: &str) {
     match prop.as_str() {
         "C01" => {
             client::mon_c01(out, &l, &r);
-            netgen::mon_c18(out, &l, &r)
+            netgen::mon_c18(out, &l, &r);
+            netgen::mon_c01_sync(out, &l, &r)
         }
         "C02" => client::mon_c02(out, &l, &r),
         "C03" => codec::mon_c03(out, &l, &r),
         "C04" => stream::mon_c04(out, &l, &r),
-        "C05" => stream::mon_c05(out, &l, &r),
+        "C05" => {
+            stream::mon_c05(out, &l, &r);
+            client::mon_c05_cli(out, &l, &r)
+        }
         "C06" => client::mon_c06(out, &l, &r),
         "C07" => {
             server::mon_c07(out, &l, &r);
